@@ -119,6 +119,8 @@ static void capture_report(void *report) {
 	// order the two accesses canonically (by pc) so the signature does not depend on which thread came second
 	int a = 0, b = 1;
 	if (pcs[1] < pcs[0]) { a = 1; b = 0; }
+	static unsigned long accepted = 0;
+	if (++accepted >= 512) seam::g_tsan_flood = 1;
 	int n = g_nrec;
 	if (n >= MAX_RECORDS) return;
 	// pc - 1: report frames are return-address style for callers, access pc for frame 0; symbolisation uses the containing function
